@@ -1093,6 +1093,7 @@ func (env *LEnv) checkLimits(ctx context.Context) *LVal {
 func (env *LEnv) checkLimitsSlow(ctx context.Context) *LVal {
 	r := env.Runtime
 	r.steps++
+	verifOnStep(r)
 	if r.maxSteps > 0 && r.steps > r.maxSteps {
 		return env.ErrorConditionf(CondStepLimitExceeded,
 			"step limit exceeded (%d steps)", r.maxSteps)
@@ -1176,6 +1177,7 @@ func (env *LEnv) eval(ctx context.Context, v *LVal) (result *LVal) {
 				" process with an unrecoverable stack overflow; raise or disable it"+
 				" with WithMaxEvalNesting)", env.Runtime.evalNesting)
 	}
+	verifOnEvalEnter(env.Runtime)
 	macroDepth := 0
 eval:
 	if lerr := env.checkLimits(ctx); lerr != nil {
@@ -1563,6 +1565,7 @@ func (env *LEnv) funCall(ctx context.Context, fun, args *LVal) *LVal {
 	defer env.Runtime.Stack.Pop()
 
 	if npop > 0 {
+		verifOnTailElide(env.Runtime, npop)
 		return markTailRec(npop, fun, args)
 	}
 
